@@ -31,7 +31,7 @@ EXTENDS Integers, Sequences, FiniteSets, TLC
 CONSTANTS Shapes,      \* set of records [name, ch, root, ...]: the node DAGs (target trie + other nodes)
           Caps,        \* candidate values of MaxHardCapForMissingNodes (>= 1)
           Algos,       \* subset of {"double", "single"}
-          FaultSets,   \* candidate environment option sets, subsets of {"cancel", "timeout", "evict", "lose", "batch"}
+          FaultSets,   \* candidate environment option sets, subsets of {"cancel", "timeout", "evict", "lose", "batch", "shared", "lazy"}
           Budgets,     \* candidate numbers of adversary moves
           InitDBs(_),  \* shape -> set of initial DB key sets (resumption with a partially filled DB)
           Threats,     \* {} or {"poison"}: cache entries written under a key that is not the hash of the content
@@ -179,6 +179,15 @@ Evict(h) ==
     /\ h \in DOMAIN cache /\ cache' = Without(cache, {h})
     /\ Note(Ev("Evict", [h |-> h], [x |-> 0]))
     /\ UNCHANGED <<pending, avail>> /\ syncUnch
+
+\* option "shared": another syncer works on the same DB (userAccountsSyncer runs one syncer per data trie on one
+\* storage and one cache) and stores a node -- under its own hash, it obeys the same discipline.  Its cache
+\* removals are Evict steps.
+OtherStore(k, c) ==
+    /\ Running /\ ~Lazy /\ "shared" \in cfg.faults /\ budget > 0 /\ budget' = budget - 1
+    /\ db' = (k :> c) @@ db /\ avail' = avail \cup {c}
+    /\ Note(Ev("Store", [k |-> k], [c |-> c]))
+    /\ UNCHANGED <<cfg, cache, pending, pc, result, rec, missing, existing, todo, may, cur, checked, newMissing, newEl, retry>>
 
 \* THREAT (not a behaviour of the real interceptor): content x is stored under another key.  Used to show that
 \* the invariants below are sensitive to exactly the mechanism the property names.
@@ -462,6 +471,7 @@ Adversary ==
     \/ \E x \in 0..N : DeliverAdv(x)
     \/ \E h \in pending : Lose(h)
     \/ \E h \in DOMAIN cache : Evict(h)
+    \/ \E x \in Ids : OtherStore(x, x)
     \/ \E k \in Ids, x \in Ids : Poison(k, x)
 Next == Syncer \/ Honest \/ Adversary
 
@@ -493,6 +503,14 @@ Inv_C05_Avail == result = "ok" => Target \subseteq avail
 
 \* the interceptor stores content only under its own hash (false exactly under the "poison" threat)
 Inv_C05_CacheOwnHash == \A k \in DOMAIN cache : cache[k] = k
+
+\* the design insight that makes completeness inductive: while the sync runs, every node of the trie that is not yet
+\* stored lies below (or is) a node the syncer still tracks -- a missing hash, an in-memory node, the element being
+\* processed with the children just looked up, the missing hashes collected in the running pass
+Frontier == missing \cup DOMAIN existing \cup newMissing
+            \cup (IF cur = NoCur THEN {} ELSE {cur.h, cur.c} \cup Range(cur.found) \cup Range(cur.miss))
+Below(F) == UNION {Reach(cfg.ch, f) : f \in F \cap Ids}
+Inv_C05_Frontier == (Running /\ pc # "start") => (Target \ DOMAIN db) \subseteq Below(Frontier)
 
 \* DB entries are written once with their final value or rewritten with the same value
 Act_C05_WriteOwnHash ==
